@@ -352,9 +352,22 @@ func run(e *core.Env) {
 	// continent) are only reached when many destinations share one routing prefix.
 	crowded := !custom && tp.Chance(1, 4)
 	if crowded {
+		all := prefixes
 		prefixes = [][]byte{prefixes[tp.Intn(len(prefixes))]}
 		nDst = 40 + tp.Intn(110)
 		e.Probe("one_shipped_prefix_crowded")
+		// The router's own prefix usually lies somewhere inside its region: in address order the
+		// region's routes then come in two runs, before and after the own prefix. A third of the
+		// crowded runs fill the region on both sides (and put a few routers into the own prefix),
+		// with more routes than the region admits in total.
+		own, ok := w.rp(w.self)
+		lo, hi := mkAddr([]byte{selfBytes[0], selfBytes[1]}, 1), mkAddr([]byte{selfBytes[0], selfBytes[1], 0xff, 0xff}, 1)
+		if ok && tp.Chance(1, 3) && !own.BasePrefix.Contains(lo) && !own.BasePrefix.Contains(hi) {
+			side1, side2 := []byte{selfBytes[0], selfBytes[1]}, []byte{selfBytes[0], selfBytes[1], 0xff, 0xff}
+			prefixes = [][]byte{side1, side2, side1, side2, side1, side2, all[0]}
+			nDst = 70 + tp.Intn(70)
+			e.Probe("own_region_crowded_on_both_sides_of_the_own_prefix")
+		}
 	}
 	seen := map[netip.Addr]bool{w.self: true}
 	for k := uint32(0); len(w.dests) < nDst; k++ {
